@@ -121,7 +121,7 @@ func OpenDbStor(store *stor.Stor, mode stor.Mode, check bool) (db *Database, err
 			db = nil
 		}
 	}()
-	state := ReadState(db.Store, size-uint64(stateLen))
+	state := ReadState(db.Store, lastStateOff(db.Store, size))
 	db.state.set(state)
 	if check {
 		if err := db.QuickCheck(); err != nil {
@@ -129,6 +129,20 @@ func OpenDbStor(store *stor.Stor, mode stor.Mode, check bool) (db *Database, err
 		}
 	}
 	return db, nil
+}
+
+// lastStateOff returns the offset of the state that ends at size.
+// The shutdown marker is allocated separately from the final state,
+// so when it does not fit in the state's chunk it starts the next chunk,
+// leaving a gap of less than tailSize after the state.
+func lastStateOff(store *stor.Stor, size uint64) uint64 {
+	off := size - uint64(stateLen)
+	for gap := uint64(0); gap < tailSize && gap <= off; gap++ {
+		if _, _, t := readState(store, off-gap); t != 0 {
+			return off - gap
+		}
+	}
+	return off
 }
 
 // version checks the version of the database
